@@ -143,7 +143,10 @@ type sysConfOpts struct {
 	ExtraTop     string // extra top-level YAML
 	QLogMemSize  int
 	TLS          string // YAML body of "tls:" (2-space indented), optional
-	Wrapper      []string // command prefix, e.g. strace ...
+	// BindHost is the DNS listen address (default 127.0.0.1); "::" gives a
+	// dual-stack listener that sees IPv4 peers as IPv4-mapped IPv6 addresses.
+	BindHost string
+	Wrapper  []string // command prefix, e.g. strace ...
 	Env          []string
 }
 
@@ -164,8 +167,11 @@ func sysWriteConfig(dir string, webPort, dnsPort int, o sysConfOpts) error {
 	fmt.Fprintf(&sb, "http:\n  address: 127.0.0.1:%d\n  session_ttl: 720h\n", webPort)
 	fmt.Fprintf(&sb, "users:\n  - name: %s\n    password: %s\n", sysUser, sysPasswordHash())
 	fmt.Fprintf(&sb, "auth_attempts: 1000\nblock_auth_min: 1\n")
-	fmt.Fprintf(&sb, "dns:\n  bind_hosts:\n    - 127.0.0.1\n  port: %d\n  ratelimit: 0\n  upstream_dns:\n    - 127.0.0.1:%d\n  bootstrap_dns: []\n  cache_size: 0\n  use_private_ptr_resolvers: false\n  hostsfile_enabled: false\n  upstream_timeout: 10s\n",
-		dnsPort, o.UpstreamPort)
+	if o.BindHost == "" {
+		o.BindHost = "127.0.0.1"
+	}
+	fmt.Fprintf(&sb, "dns:\n  bind_hosts:\n    - '%s'\n  port: %d\n  ratelimit: 0\n  upstream_dns:\n    - 127.0.0.1:%d\n  bootstrap_dns: []\n  cache_size: 0\n  use_private_ptr_resolvers: false\n  hostsfile_enabled: false\n  upstream_timeout: 10s\n",
+		o.BindHost, dnsPort, o.UpstreamPort)
 	sb.WriteString(o.ExtraDNS)
 	if o.TLS != "" {
 		sb.WriteString("tls:\n" + o.TLS)
